@@ -482,7 +482,13 @@ func (e *Exec) callStatic(st *State, call *ast.CallExpr, fn *types.Func, recv *T
 		e.calledContracts[key] = true
 		if ct.Iface && recv != nil {
 			// static call of a method whose contract is the interface contract
+			// the receiver is given the interface type: repr(this) in modifies enumerates the implementations of that type
 			r := TV{st.contOf(e.kindCode(recv.Ty), recv.T), recv.Ty}
+			if it := e.ifaceNamedType(ct); it != nil {
+				r.Ty = it
+			} else {
+				e.specErrors = append(e.specErrors, "interface type of "+ct.Key+" not found: frame of a static call cannot be applied")
+			}
 			return e.applyIfaceContract(st, call, fn, ct, r, args)
 		}
 		return e.applyContract(st, call, fi, ct, recv, args)
@@ -599,6 +605,9 @@ func (e *Exec) modLocs(clauses []Clause, env *SpecEnv) []modLoc {
 				v := e.tr(x.Args[0], env)
 				if v.T.Sort != SCont {
 					e.specFail("repr() of a non-interface value")
+				}
+				if len(e.implementations(v.Ty)) == 0 {
+					e.specFail("repr() of %s: no implementations known", v.Ty)
 				}
 				for _, it := range e.implementations(v.Ty) {
 					kc := Eq(CKind(v.T), IntLit(int64(e.kindCode(it))))
@@ -760,6 +769,14 @@ func (e *Exec) havocLocs(st *State, locs []modLoc, p token.Pos) {
 	}
 }
 
+// advanceAlloc moves the allocation frontier to an arbitrary later point.
+func (e *Exec) advanceAlloc(st *State) Term {
+	na := e.fresh("alloc", SInt)
+	e.assumeGlobal(Ge(na, e.allocGet(st)))
+	st.heap["alloc"] = na
+	return na
+}
+
 func (e *Exec) applyContract(st *State, call *ast.CallExpr, fi *FuncInfo, ct *Contract, recv *TV, args []TV) []Term {
 	site := e.counters["call"]
 	e.counters["call"] = site + 1
@@ -785,12 +802,15 @@ func (e *Exec) applyContract(st *State, call *ast.CallExpr, fi *FuncInfo, ct *Co
 			e.note("termination", e.fn.Key+": recursive call without a decreases clause (partial correctness only)")
 		}
 		locs := e.modLocs(ct.Modifies, envPre)
+		// the allocation frontier advances BEFORE the modified locations get their new contents: those may
+		// hold references to objects allocated by the callee
+		e.advanceAlloc(st)
 		e.havocLocs(st, locs, pos)
 	}()
-	// allocation frontier may advance
-	na := e.fresh("alloc", SInt)
-	e.assumeGlobal(Ge(na, e.allocGet(st)))
-	st.heap["alloc"] = na
+	na := e.allocGet(st)
+	if na.S == e.allocGet(pre).S {
+		na = e.advanceAlloc(st)
+	}
 	sig := fi.Obj.Type().(*types.Signature)
 	var res []TV
 	var out []Term
@@ -936,6 +956,9 @@ func numberLoops(fd *ast.FuncDecl) map[ast.Node]int {
 func (e *Exec) callInterface(st *State, call *ast.CallExpr, fn *types.Func, recv TV, args []TV) []Term {
 	e.oblige(st, "nil", "", Not(Eq(CKind(recv.T), IntLit(0))), "method call on nil interface: "+e.src(call.Fun), call.Pos())
 	iname := namedName(recv.Ty)
+	if nt, ok := types.Unalias(recv.Ty).(*types.Named); ok {
+		iname = nt.Obj().Name() // contract keys are <pkg>.<Type>.<method>
+	}
 	key := ""
 	if fn.Pkg() != nil {
 		key = pkgShort(fn.Pkg().Path()) + "."
@@ -943,6 +966,11 @@ func (e *Exec) callInterface(st *State, call *ast.CallExpr, fn *types.Func, recv
 	key += iname + "." + fn.Name()
 	if ct := e.prog.Contracts[key]; ct != nil && ct.Iface {
 		return e.applyIfaceContract(st, call, fn, ct, recv, args)
+	}
+	if fn.Pkg() != nil { // historical key form <pkg>.<pkg>_<Type>.<method>
+		if ct := e.prog.Contracts[pkgShort(fn.Pkg().Path())+"."+namedName(recv.Ty)+"."+fn.Name()]; ct != nil && ct.Iface {
+			return e.applyIfaceContract(st, call, fn, ct, recv, args)
+		}
 	}
 	if out, ok := e.stdlibIface(st, call, fn, iname, recv, args); ok {
 		return out
@@ -1069,11 +1097,14 @@ func (e *Exec) applyIfaceContract(st *State, call *ast.CallExpr, fn *types.Func,
 			e.obligeNamed(st, fmt.Sprintf("%s/call#%d.pre.%d", e.fn.Key, site, k), "call", r.Tag, g,
 				fmt.Sprintf("precondition of %s: %s", ct.Key, r.Src), pos)
 		}
-		e.havocLocs(st, e.modLocs(ct.Modifies, envPre), pos)
+		locs := e.modLocs(ct.Modifies, envPre)
+		e.advanceAlloc(st)
+		e.havocLocs(st, locs, pos)
 	}()
-	na := e.fresh("alloc", SInt)
-	e.assumeGlobal(Ge(na, e.allocGet(st)))
-	st.heap["alloc"] = na
+	na := e.allocGet(st)
+	if na.S == e.allocGet(pre).S {
+		na = e.advanceAlloc(st)
+	}
 	var res []TV
 	var out []Term
 	for i := 0; i < sig.Results().Len(); i++ {
@@ -1205,6 +1236,25 @@ func (e *Exec) stdlibIface(st *State, call *ast.CallExpr, fn *types.Func, iname 
 
 
 // ifaceMethodSig returns the signature of the interface method an interface contract is about.
+func (e *Exec) ifaceNamedType(ct *Contract) types.Type {
+	parts := strings.Split(ct.Key, ".")
+	if len(parts) != 3 {
+		return nil
+	}
+	pkg := e.prog.Pkgs[parts[0]]
+	if pkg == nil {
+		return nil
+	}
+	tn, _ := pkg.Types.Scope().Lookup(parts[1]).(*types.TypeName)
+	if tn == nil {
+		return nil
+	}
+	if _, ok := tn.Type().Underlying().(*types.Interface); !ok {
+		return nil
+	}
+	return tn.Type()
+}
+
 func (e *Exec) ifaceMethodSig(ct *Contract) *types.Signature {
 	parts := strings.Split(ct.Key, ".")
 	if len(parts) != 3 {
